@@ -16,11 +16,13 @@ class _Env:
     """Bound variables in the current scope.
 
     The ``terminated`` flag marks an env produced by a control-flow
-    path that returns (or otherwise can't reach the surrounding
-    merge point).  Terminated envs are *absorbing* in :meth:`merge`
-    — merging with a terminated env yields the other env unchanged,
-    because the terminated path contributes no constraints to "what
-    must be defined" downstream.
+    path that returns.  A terminated env still takes part in
+    :meth:`merge`: a name introduced by a branch is bound after the
+    ``if`` only when *both* branches introduce it, whether or not one
+    of them returns.  That is the scoping rule of the language guide,
+    and the one reaching definitions builds its phi nodes by; a name
+    the front end let through on the strength of "the other branch
+    returns" has no definition there and the function cannot be run.
     """
     env: dict[NamedId, bool]
     terminated: bool
@@ -49,16 +51,8 @@ class _Env:
         return copy
 
     def merge(self, other: Self):
-        # Terminated paths don't reach the merge point.  If one
-        # side terminates, the other is the only path; if both
-        # terminate, the merge point itself is unreachable.
-        if self.terminated and other.terminated:
-            return _Env(terminated=True)
-        if self.terminated:
-            return _Env(other.env)
-        if other.terminated:
-            return _Env(self.env)
-        copy = _Env()
+        # The merge point is unreachable only if both sides terminate.
+        copy = _Env(terminated=self.terminated and other.terminated)
         for key in self.env.keys() | other.env.keys():
             copy.env[key] = self.env.get(key, False) and other.env.get(key, False)
         return copy
@@ -322,10 +316,10 @@ class SyntaxCheckInstance(Visitor):
 
     def _visit_return(self, stmt: ReturnStmt, ctx: _Ctx):
         self._visit_expr(stmt.expr, ctx)
-        # The control-flow path doesn't continue past a return —
-        # mark the resulting env terminated so sibling-branch
-        # merges drop it cleanly (see :meth:`_Env.merge`).
-        return _Env(terminated=True)
+        # The control-flow path doesn't continue past a return, but
+        # what the branch bound before returning still decides what a
+        # sibling-branch merge keeps (see :class:`_Env`).
+        return _Env(ctx.env.env, terminated=True)
 
     def _visit_pass(self, stmt: PassStmt, ctx: _Ctx):
         return ctx.env
